@@ -70,3 +70,24 @@ Fixpoint git_loop (ws : list (list N)) (fg bg : option tcolor) (ncol : N) (eff :
 
 Definition git_parse (s : list N) : option git_result :=
   git_loop (split_whitespace s) None None 0 0.
+
+(* ---- vocabulary of the function translator (tools/gen_fn_text.py) ------------
+   anstyle_git::Error with both of its fields (the result type [git_result] of the
+   specification keeps the word only).  Definitions only. *)
+Inductive git_error : Set :=
+  | GEExtraColor (style word : list N)
+  | GEUnknownWord (style word : list N).
+
+Definition git_result_of (r : result tstyle git_error) : git_result :=
+  match r with
+  | Ok st => GOk st
+  | Err (GEExtraColor _ w) => GExtraColor w
+  | Err (GEUnknownWord _ w) => GUnknownWord w
+  end.
+
+(* the `style` field of an error *)
+Definition git_error_style (r : result tstyle git_error) : option (list N) :=
+  match r with
+  | Ok _ => None
+  | Err (GEExtraColor s _) | Err (GEUnknownWord s _) => Some s
+  end.
